@@ -12,6 +12,7 @@ import (
 	"go/constant"
 	"go/types"
 	"sort"
+	"strings"
 
 	"golang.org/x/tools/go/ssa"
 )
@@ -202,6 +203,21 @@ func (m *Model) keywordSet() (map[string]int64, string) {
 			}
 		}
 	}
+	// words kept in a package-level table the lookup reads (a sorted array searched by name, ...)
+	for _, fn := range append([]*ssa.Function{li}, li.AnonFuncs...) {
+		for _, b := range fn.Blocks {
+			for _, in := range b.Instrs {
+				for _, op := range in.Operands(nil) {
+					if g, isG := (*op).(*ssa.Global); isG && g.Pkg != nil && strings.HasPrefix(g.Pkg.Pkg.Path(), modPath) {
+						sp := shortPkg(g.Pkg.Pkg.Path())
+						if m.globalMapWritten(sp, canonGlobalName(g)) == "" {
+							collectStrings(m.evalGlobals(sp)[canonGlobalName(g)], cands, 0)
+						}
+					}
+				}
+			}
+		}
+	}
 	out := map[string]int64{}
 	for w := range cands {
 		ip := &Interp{m: m, useGlobals: true}
@@ -230,4 +246,35 @@ func (m *Model) keywordSet() (map[string]int64, string) {
 		return nil, "token.LookupIdent knows no keyword"
 	}
 	return out, ""
+}
+
+// collectStrings: every string constant held in an interpreter value.
+func collectStrings(v any, out map[string]bool, d int) {
+	if d > 6 {
+		return
+	}
+	switch x := v.(type) {
+	case constant.Value:
+		if x.Kind() == constant.String {
+			out[constant.StringVal(x)] = true
+		}
+	case *iArr:
+		for _, e := range x.elems {
+			collectStrings(e, out, d+1)
+		}
+	case iSlice:
+		for _, e := range x.arr.elems[x.lo:x.high] {
+			collectStrings(e, out, d+1)
+		}
+	case iAddr:
+		collectStrings(x.arr, out, d+1)
+	case *iStruct:
+		for _, e := range x.fields {
+			collectStrings(e, out, d+1)
+		}
+	case *iMap:
+		for _, k := range x.keys {
+			out[k] = true
+		}
+	}
 }
